@@ -139,6 +139,35 @@ func TestC08(t *testing.T) {
 		}
 	}
 	ev.Class("seed-x-fixed-schedules", int64(len(all)*len(fixed)*2))
+	// large inputs: the last needed structure ends shortly after 1 MiB / 8 MiB (16, 32 MiB in thorough); anything
+	// that counts bytes per Read call (limits, progress, buffers sized from totals) depends on the segmentation
+	ths := []int{1 << 20, 8 << 20}
+	if ev.Thorough() {
+		ths = append(ths, 16<<20, 32<<20)
+	}
+	for _, th := range ths {
+		for _, format := range []string{"PNG", "JPEG", "WebP"} {
+			f := gen.LargeHeader(format, th+300)
+			for _, sc := range [][]int{{1000}, {4097}, {65536}, {1 << 30}, {th - 100, 7}} {
+				for _, target := range []string{ld.ForFormat(format), "auto"} {
+					c := Case{Desc: f.Desc, Data: f.Data, Target: target, Sizes: sc, DataWithEOF: sc[0]%2 == 0}
+					ev.Eval(1)
+					k, w, nt := check(c)
+					if nt {
+						ev.NT(ev.Hash("large", format, th, sc, target))
+					}
+					if k != "" && !bad[k] {
+						bad[k] = true
+						if len(c.Data) > 9<<20 {
+							c.Data = nil
+						}
+						ev.Violation("segmentation", k, w, c)
+					}
+				}
+			}
+		}
+	}
+	ev.Class("large-inputs", int64(len(ths)*3*5*2))
 	ev.Sample(map[string]any{"input": all[2].Name, "bytes": len(all[2].Data), "target": "png", "schedule": []int{1}})
 
 	otherEnds := mut.Ends(all[4].Map, len(all[4].Data))
